@@ -23,7 +23,8 @@
       applies to the traces observed on the real code. *)
 From Coq Require Import List Arith Bool.
 Import ListNotations.
-From TI Require Import lib.Sched model.Locks model.LocksSpec proofs.LocksProofs.
+From TI Require Import lib.Sched model.Locks model.LocksSpec model.LocksTie
+  proofs.LocksProofs proofs.LocksTieProofs.
 
 (** no two threads (of whatever processes) are inside synchronized bodies at once *)
 Theorem C14_mutex :
@@ -90,3 +91,12 @@ Theorem C14_macro_grain_covered :
   forall cf s0 sch, reachable (step cf) s0 (run_sched (macro cf) s0 sch).
 Proof. exact run_macro_reachable. Qed.
 Print Assumptions C14_macro_grain_covered.
+
+(** the harness's two verdicts are consistent: for every case (threads, programs,
+    schedule) the model's own encoded trace passes the oracle applied to observed traces
+    ([obs_ok]: decode, then [accepts]), so an observed trace equal to the model's can never
+    be reported as a property failure, and [check] only returns 0, 1 or 3 *)
+Theorem C14_model_traces_pass_the_oracle :
+  forall c, obs_ok (model_trace c false) = true.
+Proof. exact model_trace_accepted. Qed.
+Print Assumptions C14_model_traces_pass_the_oracle.
